@@ -15,7 +15,7 @@ def main():
             e = {"status": status, "property": prop, "tag": t, "what": what}
             if commit != '-': e["commit"] = commit
             if status == 'fixed': e["line"] = "fixed: property=%s %s %s" % (prop, commit, what)
-            j["findings"] = [f for f in j["findings"] if not (f["property"] == prop and f["tag"] == t)]
+            j["findings"] = [f for f in j["findings"] if not (f["property"] == prop and f["tag"] == t and f.get("commit", "-") == commit)]
             j["findings"].append(e)
         json.dump(j, open(P, 'w'), indent=1); open(P, 'a').write('\n')
 main()
